@@ -1581,7 +1581,16 @@ def main() -> int:
         # Loop through each target in the list.  Entries can specify a port number to use, otherwise the value provided on the command line (--port=N) will be used by default (set to 22 if --port is not used).
         target_servers = []
         for _, target in enumerate(aconf.target_list):
-            host, port = Utils.parse_host_and_port(target, default_port=aconf.port)
+            try:
+                host, port = Utils.parse_host_and_port(target, default_port=aconf.port)
+            except ValueError:
+                port = -1
+
+            # Reject an invalid port before any target is scanned (as is done for a target given on the command line).
+            if port < 1 or port > 65535:
+                out.fail("port must be greater than 0 and less than 65535: %s" % target, write_now=True)
+                sys.exit(exitcodes.UNKNOWN_ERROR)
+
             target_servers.append((host, port))
 
         # A ranked list of return codes.  Those with higher indices will take precedence over lower ones.  For example, if three servers are scanned, yielding WARNING, GOOD, and UNKNOWN_ERROR, the overall result will be UNKNOWN_ERROR, since its index is the highest.  Errors have highest priority, followed by failures, then warnings.
